@@ -39,6 +39,7 @@ def configure_rules_per_option(oRules, configuration, iIndex, sFileName, section
         if does_file_have_rule_configuration(configuration, section, iMyIndex, sFileName):
             oRuleConfig = config.config()
             oRuleConfig.dConfig = configuration[section][iMyIndex][sFileName]
+            oRuleConfig.severity_list = oRules.oSeverityList
             oRules.configure(oRuleConfig)
 
 
